@@ -511,8 +511,41 @@ def _history(spec, mon, rec):
                 rec.violation('re-evaluation-differs:history', 'statement %r gave %r earlier in this history and %r now' % (
                     t, baseline[t], key), {'kind': 'history', 'text': t})
             baseline.setdefault(t, key)
+            if step % 4 == 0:
+                _contextless(mon, rec, eng, t, st, mode_off)
         if h % 5 == 0:
             rec.sample({'kind': 'history', 'statements': texts[:5], 'steps': len(order)})
+
+
+def _outcome(f):
+    try:
+        return ('value', repr(freeze(f())))
+    except Exception as e:
+        return ('exc', type(e).__name__)
+
+
+def _contextless(mon, rec, eng, t, st, mode_off):
+    """the same statement evaluated without a context: with data, without data, with data again - each
+    must equal what a freshly parsed statement gives, and the statement object stays unwritten"""
+    fresh = eng(t)
+    want_data = _outcome(lambda: fresh.evaluate(data=pool_doc()))
+    want_none = _outcome(lambda: eng(t).evaluate())
+    mon.attr_writes = []
+    mon.armed = True
+    try:
+        got = [_outcome(lambda: st.evaluate(data=pool_doc())), _outcome(lambda: st.evaluate()),
+               _outcome(lambda: st.evaluate(data=pool_doc()))]
+    finally:
+        mon.armed = False
+    rec.count('history.contextless_steps')
+    rp = {'kind': 'contextless', 'text': t, 'mode_off': mode_off}
+    if got != [want_data, want_none, want_data]:
+        rec.violation('re-evaluation-differs:contextless',
+                      'statement %r evaluated without a context (with data, without data, with data) gave %r; a fresh statement gives %r' % (
+                          t, got, [want_data, want_none, want_data]), rp)
+    if mon.attr_writes:
+        rec.violation('shared-object-written:%s' % mon.attr_writes[0][0],
+                      'attribute writes on the statement during a context-less evaluation of %r: %r' % (t, mon.attr_writes[:3]), rp)
 
 
 def freeze_unmutated(v):
@@ -551,7 +584,11 @@ def replay(data, rec):
     mon = Mon(rec)
     try:
         eng = mon.eng_off if data.get('mode_off') else mon.eng_on
-        if data['kind'] == 'catalogue':
+        if data['kind'] == 'contextless':
+            st = eng(data['text'])
+            mon.protect_statement(st)
+            _contextless(mon, rec, eng, data['text'], st, data.get('mode_off'))
+        elif data['kind'] == 'catalogue':
             for o, i, di, text, vars_ in catalogue_cases(mon):
                 if o.ident == data['ident'] and i == data['pos'] and di == data['doc'] and to_data_text(text) == data['text']:
                     st = eng(data['text'])
